@@ -16,6 +16,13 @@ import lib  # noqa: E402
 from lib import log  # noqa: E402
 
 
+TIE_TARGETS = {
+    "C01": ["Gen/TieShares.vo"], "C03": ["Gen/TieShares.vo"], "C04": ["Gen/TieUsd.vo"],
+    "C05": ["Gen/TieUsd.vo", "Gen/TieShares.vo"], "C12": ["Gen/TieOracle.vo"], "C13": ["Gen/TieOracle.vo"],
+    "C14": ["Gen/TieOracle.vo"], "C19": ["Gen/TieGas.vo"],
+}
+
+
 def main():
     ap = argparse.ArgumentParser()
     ap.add_argument("prop")
@@ -56,12 +63,17 @@ def main():
 
     # 3. kernels + coq --------------------------------------------------------------------------
     ok_k, out_k, t_k = lib.gen_kernels()
-    if not ok_k and P.get("uses_kernels"):
+    if not ok_k and (P.get("uses_kernels") or pid in TIE_TARGETS):
         p = lib.write_replay(pid, "kernel-translation", {"property": pid,
                              "broken": "translator: a pure kernel left the translatable subset", "output": out_k[-6000:]})
         violations.append((p, True, "kernel translation failed"))
     lib.sh([os.path.join(lib.VERIF, "corr", "build_coq.sh"), "-k"])
     targets = [t for t in P["coq_targets"]]
+    # kernel ties: lemmas (coq/Gen/Tie*.v) proving that a package's hand-written arithmetic equals the kernels
+    # REGENERATED from the Go source on this run; a change of the Go kernel breaks the tie of every package using it
+    for t in TIE_TARGETS.get(pid, []):
+        if t not in targets and os.path.exists(os.path.join(lib.COQ, t[:-1])):
+            targets.append(t)
     r = lib.sh([os.path.join(lib.VERIF, "corr", "build_coq.sh")] + targets)
     ok_c = r.returncode == 0
     log("[%s] coq make %s: %s" % (pid, " ".join(targets), "ok" if ok_c else "FAILED"))
